@@ -441,6 +441,8 @@ def run(chk):
         mod = chk.repo.mod(mn)
         for scope, nm in unresolved_globals(mod, chk.repo):
             chk.note(f"{mod.rel}: name {nm!r} loaded in {scope} is bound nowhere (dead helper; not on the CSV path)")
+    from .. import unused as _unused
+    chk.guard(_unused.apply, chk, "C19-R91")
     from .. import args as _args
     chk.guard(_args.apply, chk, "C19-R90", {'databoxes', 'dataslates'}, 1)
     chk.assumptions = [
